@@ -8,6 +8,8 @@
 //!                        is_limit_bounded, for the correspondence with coq/Model/Gate.v
 //!   c20 session N DIR -> JSON lines: ONE compiler reused over snippets (failing ones first), compared after every
 //!                        snippet with a compiler that saw only the successful ones; saved state must be restored
+//!   c20 hostdep 0 DIR -> JSON lines: every system function under SafeSys and under a backend without overrides,
+//!                        on targets that exist on the host and on ones that do not: same outcome required
 //!   c20 one MODE SRC  -> compile one program (replay / experiments)
 use std::any::Any;
 use std::borrow::Cow;
@@ -1178,6 +1180,7 @@ fn asm_delta(c: &Compiler, root_before: usize, funcs_before: usize) -> String {
     let rs: Vec<String> = a.root[rb..].iter().map(|n| format!("{n:?}")).collect();
     let fs: Vec<String> = a.functions.iter().skip(fb).map(|f| format!("{f:?}")).collect();
     // binding indices depend on the bindings rejected snippets left behind; clock and random values differ per run
+    // (and are printed with or without an abbreviating ellipsis): every number becomes '#'
     let text = format!("{} || {}", rs.join(", "), fs.join(" | "));
     let mut out = String::new();
     let mut prev_digit = false;
@@ -1187,7 +1190,8 @@ fn asm_delta(c: &Compiler, root_before: usize, funcs_before: usize) -> String {
                 out.push('#');
             }
             prev_digit = true;
-        } else if ch == '.' && prev_digit {
+        } else if prev_digit && matches!(ch, '.' | '…' | 'e' | 'E' | '¯' | '-') {
+            // inside a number: fraction point, the ellipsis of an abbreviated decimal, exponent, sign
         } else {
             out.push(ch);
             prev_digit = false;
@@ -1465,6 +1469,122 @@ fn two_compilers(scratch: &str) {
     let _ = std::fs::remove_dir_all(&scr_path);
 }
 
+
+// ------------------------------------------------------------------ answers must not depend on the host
+
+/// a backend with NO overrides: every method is the trait's default
+struct Bare;
+impl SysBackend for Bare {
+    fn any(&self) -> &dyn Any {
+        self
+    }
+    fn any_mut(&mut self) -> &mut dyn Any {
+        self
+    }
+}
+
+fn outcome_on(backend: impl uiua::IntoSysBackend, node: Node, args: &[Value], target: &str) -> String {
+    let mut env = Uiua::with_backend(backend);
+    for a in args.iter().rev() {
+        env.push(a.clone());
+    }
+    let r = catch(|| env.exec(node).map_err(|e| e.to_string()));
+    let text = match r {
+        Ok(Ok(())) => {
+            let st: Vec<String> = env.take_stack().iter().map(|v| v.show()).collect();
+            format!("Ok[{}]", st.join(" | "))
+        }
+        Ok(Err(e)) => format!("Err[{}]", e.lines().next().unwrap_or("")),
+        Err(p) => format!("PANIC[{p}]"),
+    };
+    text.replace(target, "<T>")
+}
+
+/// Every system function under SafeSys and under the bare backend, on targets that really exist on the
+/// host and on counterparts that do not: the outcome must be the same for both (or "not supported").
+fn hostdep(scratch: &str) {
+    let scr_path = PathBuf::from(scratch);
+    prepare_scratch(&scr_path);
+    let scr = scr_path.display().to_string();
+    // an environment variable that exists / one that does not
+    unsafe {
+        std::env::set_var("C20_EXISTING_VAR", "value-on-the-host");
+        std::env::remove_var("C20_MISSING_VAR");
+    }
+    let mut targets: Vec<(String, String, &str)> = vec![
+        (format!("{scr}/in.txt"), format!("{scr}/no-such-file.txt"), "file"),
+        (scr.clone(), format!("{scr}/no-such-dir"), "directory"),
+        ("/".to_string(), "/c20-no-such-root-entry".to_string(), "root"),
+        (".".to_string(), "./c20-no-such-entry".to_string(), "cwd"),
+        ("C20_EXISTING_VAR".to_string(), "C20_MISSING_VAR".to_string(), "env-var"),
+        ("PATH".to_string(), "C20_MISSING_VAR".to_string(), "env-var"),
+    ];
+    if Path::new("/etc/passwd").exists() {
+        targets.push(("/etc/passwd".to_string(), "/etc/c20-no-such-file".to_string(), "file"));
+    }
+    let fillers: Vec<Value> = vec![Value::from("x"), Value::from(1.0)];
+    let (mut runs, mut ops_n, mut not_supported, mut equal_ok, mut equal_err) = (0usize, 0usize, 0usize, 0usize, 0usize);
+    let mut reported: BTreeSet<String> = BTreeSet::new();
+    for op in SysOp::ALL {
+        if op.modifier_args().is_some() {
+            continue;
+        }
+        ops_n += 1;
+        let nargs = op.args();
+        let node = Node::Prim(Primitive::Sys(op), 0);
+        if nargs == 0 {
+            for bname in ["SafeSys", "Bare"] {
+                let o = if bname == "Bare" { outcome_on(Bare, node.clone(), &[], "\u{0}") } else { outcome_on(SafeSys::new(), node.clone(), &[], "\u{0}") };
+                println!("{{\"k\":\"noarg\",\"op\":{},\"backend\":\"{bname}\",\"outcome\":{}}}", jstr(&format!("{op:?}")), jstr(&o.chars().take(100).collect::<String>()));
+            }
+            continue;
+        }
+        for (exist, missing, kind) in &targets {
+            for pos in 0..nargs {
+                // the other arguments: every filler (one combination per filler)
+                for fi in 0..fillers.len() {
+                    let mk = |t: &str| -> Vec<Value> { (0..nargs).map(|i| if i == pos { Value::from(t) } else { fillers[(fi + i) % fillers.len()].clone() }).collect() };
+                    for bname in ["SafeSys", "Bare"] {
+                        let (a, b) = if bname == "Bare" {
+                            (outcome_on(Bare, node.clone(), &mk(exist), exist), outcome_on(Bare, node.clone(), &mk(missing), missing))
+                        } else {
+                            (outcome_on(SafeSys::new(), node.clone(), &mk(exist), exist), outcome_on(SafeSys::new(), node.clone(), &mk(missing), missing))
+                        };
+                        runs += 2;
+                        if a == b {
+                            if a.contains("not supported") {
+                                not_supported += 1;
+                            } else if a.starts_with("Ok") {
+                                equal_ok += 1;
+                            } else {
+                                equal_err += 1;
+                            }
+                            continue;
+                        }
+                        let key = format!("host-dependent-answer/{bname}/{op:?}");
+                        if reported.insert(key.clone()) {
+                            println!(
+                                "{{\"k\":\"violation\",\"key\":{},\"ctx\":\"hostdep\",\"snippet\":{},\"mode\":\"run\",\"methods\":[],\"calls\":{},\"program\":{},\"result\":{}}}",
+                                jstr(&key),
+                                jstr(op.name()),
+                                jstr(&format!("under {bname}, {} applied to the {kind} {exist:?} that exists on the host gives {a}, applied to {missing:?} that does not exist gives {b} (argument {pos} of {nargs})", op.name())),
+                                jstr(&format!("{} \"{exist}\"   vs   {} \"{missing}\"", op.name(), op.name())),
+                                jstr(&a)
+                            );
+                        }
+                    }
+                }
+            }
+        }
+    }
+    println!(
+        "{{\"k\":\"summary\",\"system_functions\":{ops_n},\"targets\":{},\"runs\":{runs},\"pairs_equal_not_supported\":{not_supported},\"pairs_equal_ok\":{equal_ok},\"pairs_equal_other_error\":{equal_err},\"host_dependent\":{}}}",
+        targets.len(),
+        reported.len()
+    );
+    let _ = std::fs::remove_dir_all(&scr_path);
+}
+
 // ------------------------------------------------------------------ the gate functions on exported trees
 
 fn collect_nodes<'a>(n: &'a Node, out: &mut Vec<&'a Node>, budget: &mut usize) {
@@ -1672,6 +1792,7 @@ fn main() {
         "gate" => gate(n, &scratch),
         "session" => sessions(n, &scratch),
         "twocomp" => two_compilers(&scratch),
+        "hostdep" => hostdep(&scratch),
         "leak-demo" => {
             // consequence of the comptime_depth leak: after N rejected code-macro snippets a valid macro is refused
             let (mut comp, _log) = new_session_compiler(PreEvalMode::Normal);
